@@ -1,0 +1,9 @@
+//go:build verif
+
+package node
+
+// VerifPool exposes pool counters for the deterministic simulator. Only call
+// from a tracer callback or handler of the supervisor machine.
+func (s *Supervisor) VerifPool() (tracked, ready, min, max int) {
+	return len(s.workers), len(s.readyWorkers()), s.min(), s.Max
+}
